@@ -22,9 +22,15 @@ def driver_engine(prog, extra_opaque=()):
     return terms.Engine(prog, inline=True, hooks=E.Hooks([MC], opaque_names=list(extra_opaque)))
 
 
+def analysis_hooks(prog):
+    """The command-line analysis with its private phase functions inlined - also those that live (crate-internal, not `pub`) in the
+    printing / archiving / loading modules next to the public functions they wrap."""
+    names = [f.path for f in prog.lib_fns() if f.path.startswith(("result_print::", "generate_output::", "load_inputs::")) and f.vis != "Public"]
+    return E.Hooks(["analysis::"], inline_names=names)
+
+
 def analysis_engine(prog):
-    # the command-line analysis with its private phase functions inlined
-    return terms.Engine(prog, inline=True, hooks=E.Hooks(["analysis::"]))
+    return terms.Engine(prog, inline=True, hooks=analysis_hooks(prog))
 
 
 def eval_sites(summ):
@@ -75,6 +81,10 @@ def validators(prog):
         for f in fns:
             s = eng.summary(f)
             if s is not None and any(x.kind == "call" and x.is_call_to(callee) for x in s.all_sites()):
+                # (the validator of the extended mode is the one that also checks the wild-card context: a helper that only parses and
+                # checks the variable support is a part of it)
+                if ext and not any(x.kind == "call" and x.is_call_to("validate_and_divide_wild_cards") for x in s.all_sites()):
+                    continue
                 cands.append(f)
         inner = []
         for f in cands:
@@ -113,3 +123,25 @@ def validator_summary(eng, f):
     """Summary of a validator; a shared skeleton is specialised for its parser."""
     b = BINDINGS.get(f.path)
     return eng.specialise(f, dict(b)) if b else eng.summary(f)
+
+
+def support_check_paths(prog):
+    """check_hctl_var_support and its crate-internal wrappers (same graph, same tree - e.g. a variant that borrows the tree and clones it)."""
+    out = []
+    raw = terms.Engine(prog, inline=False)
+    for g in prog.lib_fns():
+        if g.path.endswith("mc_utils::check_hctl_var_support"):
+            out.append(g.path)
+        elif g.path.startswith("mc_utils::") and g.vis != "Public" and len(g.param_names()) == 2:
+            r = raw.summary(g).ret
+            pn = g.param_names()
+
+            def strip(t):
+                while isinstance(t, tuple) and t and t[0] == "call" and isinstance(t[1], str) and t[1].rsplit("::", 1)[-1] in ("clone", "to_owned", "borrow", "deref") and len(t[2]) == 1:
+                    t = t[2][0]
+                return t
+            r = strip(r)
+            if isinstance(r, tuple) and r[:1] == ("call",) and str(r[1]).endswith("check_hctl_var_support") and len(r[2]) == 2 \
+                    and r[2][0] == ("param", pn[0]) and strip(r[2][1]) == ("param", pn[1]):
+                out.append(g.path)
+    return tuple(out)
